@@ -404,6 +404,10 @@ func driveEncoder(c *driverCtx, prop string) error {
 	if prop == "C09" {
 		cases = append(cases, hcase{"null", 1000, []encOp{{p: payload(c.rng, 10)}, {p: payload(c.rng, 1600000)}, {p: payload(c.rng, 10)}, {p: payload(c.rng, 12)}, {flush: true}, {flush: true}, {p: payload(c.rng, 5)}, {flush: true}}})
 	}
+	// a block size above any internal cap: nothing is emitted before the configured size is reached or flush is called
+	if prop == "C09" {
+		cases = append(cases, hcase{"null", 4 << 20, []encOp{{p: payload(c.rng, 600000)}, {p: payload(c.rng, 600000)}, {p: payload(c.rng, 10)}, {flush: true}, {p: payload(c.rng, 3)}, {flush: true}}})
+	}
 	// many records that compress to almost nothing: 64 and more rows in a block of a few bytes
 	for _, n := range []int{63, 64, 65, 100, 200} {
 		for _, codec := range []string{"deflate", "snappy"} {
@@ -468,8 +472,8 @@ func driveEncoder(c *driverCtx, prop string) error {
 			continue
 		}
 		// the fault-free output per writer kind (same sync marker is not needed: the judge compares modulo the marker)
-		refs := [4][]byte{ref}
-		for m := 1; m < 4; m++ {
+		refs := [6][]byte{ref}
+		for m := 1; m < 6; m++ {
 			writerMode = m
 			_, refs[m] = runEncoderHistory(c, prop, key+fmt.Sprintf("|w%d", m), hc.codec, hc.block, hc.hist, 0, 0, nil)
 		}
@@ -487,7 +491,7 @@ func driveEncoder(c *driverCtx, prop string) error {
 		for _, k := range ks {
 			for ai, acc := range []int{0, 1, 1 << 30, -1, -2, -3} {
 				// writer kind (plain / also io.ByteWriter+io.StringWriter) x error kind (plain / temporary), spread over the sweep
-				writerMode = (k + ai + i) % 4
+				writerMode = (k + ai + i) % 6 // 4, 5: plain / byte writer with a closed-destination error
 				runEncoderHistory(c, prop, key+fmt.Sprintf("|k%d.a%d.w%d", k, min(acc, 2), writerMode), hc.codec, hc.block, hc.hist, k, acc, refs[writerMode])
 				writerMode = 0
 			}
@@ -509,8 +513,8 @@ func driveEncoder(c *driverCtx, prop string) error {
 		counts := []int{1, 63, 64, 200, 8192}
 		for n := 0; n <= limit; n += 3 {
 			for ci, codec := range codecs3 {
-				if codec != "null" && n%21 != 0 {
-					continue
+				if codec != "null" && n%21 != 0 && n > 720 {
+					continue // the compressing codecs: every length up to 720 (payloads that do not compress grow a little), then every 21st
 				}
 				blocks := make([][2]any, 3)
 				for j := range blocks {
@@ -534,7 +538,7 @@ func driveEncoder(c *driverCtx, prop string) error {
 		writes, ref := runFileWriterHistory(c, key, codec, blocks, 0, 0, nil)
 		if prop == "C16" {
 			for k := 1; k <= writes; k++ {
-				writerMode = (k + i) % 4
+				writerMode = (k + i) % 6
 				runFileWriterHistory(c, key+fmt.Sprintf("|k%d.w%d", k, writerMode), codec, blocks, k, []int{0, 1, 1 << 30, -1, -2, -3}[(k+i)%6], ref)
 				writerMode = 0
 			}
